@@ -74,7 +74,7 @@ def check_helper_footprints(ctx, prog, I, rule='FOOT'):
     x = BV.var('x')
     found = 0
     fn = prog.one('influenced_squares')
-    if ctx.anchor('fn influenced_squares', fn is not None):
+    if _opt(ctx, 'influenced_squares', fn):
         found += 1
         r, _ = I.call_fn(fn, [x])
         for i in range(64):
@@ -87,7 +87,7 @@ def check_helper_footprints(ctx, prog, I, rule='FOOT'):
                             'influence of square %s: depends on %s, expected %s (missing %s, unexpected %s)'
                             % (G.name(i), fmt_deps(got), fmt_deps(want), fmt_deps(want - got), fmt_deps(got - want)))
     fn = prog.one('supported_pieces')
-    if ctx.anchor('fn supported_pieces', fn is not None):
+    if _opt(ctx, 'supported_pieces', fn):
         found += 1
         r, _ = I.call_fn(fn, [x])
         for i in range(64):
@@ -103,7 +103,7 @@ def check_helper_footprints(ctx, prog, I, rule='FOOT'):
                                fmt_lits(real_lits(r.bits[i]))))
     for fname, sign in (('shift_pieces_in_direction', -1), ('shift_pieces_in_opp_direction', +1)):
         fn = prog.one(fname)
-        if not ctx.anchor('fn ' + fname, fn is not None):
+        if not _opt(ctx, fname, fn):
             continue
         found += 1
         for d in inputs.DIRS:
@@ -122,7 +122,7 @@ def check_helper_footprints(ctx, prog, I, rule='FOOT'):
                                 '%s(x, %s): bit %s is %r, expected %s' % (fname, d, G.name(i), r.bits[i],
                                                                          ('copy of x[%s]' % G.name(src)) if src is not None else 'constant 0 (off-board source)'))
     fn = prog.one('shift_in_direction')
-    if ctx.anchor('fn shift_in_direction', fn is not None):
+    if _opt(ctx, 'shift_in_direction', fn):
         found += 1
         for d in inputs.DIRS:
             st = State({})
@@ -142,7 +142,7 @@ def check_helper_footprints(ctx, prog, I, rule='FOOT'):
                                 'shift_in_direction(x, %s): bit %s is %r, expected copy of x[%s]'
                                 % (d, G.name(i), r.bits[i], G.name(src)))
     fn = prog.one('can_move_in_direction')
-    if ctx.anchor('fn can_move_in_direction', fn is not None):
+    if _opt(ctx, 'can_move_in_direction', fn):
         found += 1
         for d in inputs.DIRS:
             st = State({})
@@ -160,3 +160,13 @@ def check_helper_footprints(ctx, prog, I, rule='FOOT'):
                                 % (d, G.name(i), r.bits[i],
                                    ('"%s is empty"' % G.name(dst)) if dst is not None else 'constant 0 (no square there)'))
     return found
+
+
+def _opt(ctx, name, fn):
+    """A private helper may be inlined or removed by a refactoring: its own rule is then skipped (the generator-level rules of
+    C01.5 / C02 / LT decide the behaviour on all 64 squares without it) and the fact is recorded."""
+    if fn is None:
+        ctx.notes.append('helper %s is not present in this tree: its per-helper geometry rule is skipped' % name)
+        ctx.analysed.setdefault('helpers_absent', []).append(name)
+        return False
+    return True
